@@ -2,12 +2,12 @@ SPECIFICATION FineFair
 CONSTANTS
   Cons = {"s1", "s2"}
   Healthy = {}
-  N = 1
+  N = 3
   HCap = 64
   Parts = 1
   WsMode = FALSE
-  MaxPub = 4
+  MaxPub = 3
   MaxRead = 2
-  MaxStall = 2
+  MaxStall = 1
   MaxSweep = 0
 PROPERTY EventuallyClosed
